@@ -5,7 +5,6 @@ package connectconformance
 import (
 	"context"
 	"errors"
-	"fmt"
 	"strconv"
 	"strings"
 	"sync"
@@ -208,6 +207,16 @@ func (c *verifC16GlueClient) startHeld() {
 		c.bg.Add(1)
 		go func() {
 			defer c.bg.Done()
+			// first every case that was handed over runs its script up to its hold (or end) ...
+			for k := range c.cases {
+				c.mu.Lock()
+				sent := c.sent[k]
+				c.mu.Unlock()
+				if sent {
+					<-c.done[k]
+				}
+			}
+			// ... then the held parts, in the order of the cases
 			for k := range c.cases {
 				c.mu.Lock()
 				sent := c.sent[k]
@@ -215,7 +224,6 @@ func (c *verifC16GlueClient) startHeld() {
 				if !sent {
 					continue
 				}
-				<-c.done[k]
 				c.mu.Lock()
 				rest := c.held[k]
 				c.mu.Unlock()
@@ -359,6 +367,5 @@ func VerifC16Glue(cases []VerifC16GlueCase) VerifC16GlueOut {
 	}
 	results.mu.Unlock()
 	out.Extra = tracer.VerifC16SlotState(tr, "z")
-	_ = fmt.Sprint
 	return out
 }
